@@ -118,6 +118,9 @@ struct Case {
     cf: bool,
     g: Where,
     cg: bool,
+    /// third faulty module (thorough tier); None placement = healthy
+    h: Where,
+    ch: bool,
 }
 
 struct RunOut {
@@ -137,11 +140,13 @@ fn run(c: &Case, silent_variant: bool) -> RunOut {
         sim.node("a", mk("a", Where::None, false, true));
         sim.node("f", mk("f", c.f, c.cf, true));
         sim.node("g", mk("g", c.g, c.cg, true));
+        sim.node("h", mk("h", c.h, c.ch, true));
         sim.node("b", mk("b", Where::None, false, false));
         let ch = || Some(Channel::new(ChannelMetrics::new(0, Duration::from_millis(300), Duration::ZERO, ChannelDropBehaviour::Drop)));
         sim.gate("a", "out").connect(sim.gate("b", "in1"), None);
         sim.gate("f", "out").connect(sim.gate("b", "in2"), ch());
         sim.gate("g", "out").connect(sim.gate("b", "in3"), ch());
+        sim.gate("h", "out").connect(sim.gate("b", "in4"), None);
         let r = Builder::seeded(1).quiet().max_time(8.0.into()).build(sim.freeze()).run();
         match r {
             Ok(_) => vec![],
@@ -160,11 +165,22 @@ fn run(c: &Case, silent_variant: bool) -> RunOut {
 }
 
 fn case_json(c: &Case) -> Value {
-    json!({"f": format!("{:?}", c.f), "f_catching": c.cf, "g": format!("{:?}", c.g), "g_catching": c.cg})
+    json!({"f": format!("{:?}", c.f), "f_catching": c.cf, "g": format!("{:?}", c.g), "g_catching": c.cg, "h": format!("{:?}", c.h), "h_catching": c.ch})
 }
 fn case_from(v: &Value) -> Case {
-    let w = |s: &str| *PLACES.iter().find(|p| format!("{p:?}") == s).unwrap();
-    Case { f: w(v["f"].as_str().unwrap()), cf: v["f_catching"].as_bool().unwrap(), g: w(v["g"].as_str().unwrap()), cg: v["g_catching"].as_bool().unwrap() }
+    let w = |s: &str| -> Where {
+        let mut all = PLACES.to_vec();
+        all.extend([Where::Msg(4), Where::Msg(6), Where::Msg(7)]);
+        *all.iter().find(|p| format!("{p:?}") == s).unwrap()
+    };
+    Case {
+        f: w(v["f"].as_str().unwrap()),
+        cf: v["f_catching"].as_bool().unwrap(),
+        g: w(v["g"].as_str().unwrap()),
+        cg: v["g_catching"].as_bool().unwrap(),
+        h: v.get("h").and_then(Value::as_str).map_or(Where::None, w),
+        ch: v.get("h_catching").and_then(Value::as_bool).unwrap_or(false),
+    }
 }
 
 fn check(c: &Case, clean: &[String]) -> Result<u64, String> {
@@ -176,7 +192,9 @@ fn check(c: &Case, clean: &[String]) -> Result<u64, String> {
     if silent.aborted || !silent.errs.is_empty() {
         return Err(format!("machinery: the silent variant failed: {:?}", silent.errs));
     }
-    let healthy = |l: &[String]| -> Vec<String> { l.iter().filter(|s| s.starts_with("a:") || s.starts_with("b:")).cloned().collect() };
+    // module h is a bystander too whenever it carries no fault
+    let h_healthy = c.h == Where::None;
+    let healthy = |l: &[String]| -> Vec<String> { l.iter().filter(|s| s.starts_with("a:") || s.starts_with("b:") || (h_healthy && s.starts_with("h:"))).cloned().collect() };
     let (h1, h2) = (healthy(&real.log), healthy(&silent.log));
     if h1 != h2 {
         let first = h1.iter().zip(&h2).position(|(a, b)| a != b).unwrap_or(h1.len().min(h2.len()));
@@ -187,7 +205,7 @@ fn check(c: &Case, clean: &[String]) -> Result<u64, String> {
         ));
     }
     // the faulty module itself: nothing after the panic (messages, wake-ups); tear-down excluded
-    for (name, w) in [("f", c.f), ("g", c.g)] {
+    for (name, w) in [("f", c.f), ("g", c.g), ("h", c.h)] {
         if matches!(w, Where::None | Where::Task | Where::End) {
             continue;
         }
@@ -204,7 +222,7 @@ fn check(c: &Case, clean: &[String]) -> Result<u64, String> {
     // attribution
     let mut must: Vec<String> = vec![];
     let mut may: Vec<String> = vec![];
-    for (name, w, catching) in [("f", c.f, c.cf), ("g", c.g, c.cg)] {
+    for (name, w, catching) in [("f", c.f, c.cf), ("g", c.g, c.cg), ("h", c.h, c.ch)] {
         match w {
             Where::None => {}
             Where::Task => {
@@ -236,12 +254,14 @@ fn check(c: &Case, clean: &[String]) -> Result<u64, String> {
         return Err(format!("run() reported {} errors for {} panicking modules: {:?}", real.errs.len(), must.len() + may.len(), real.errs));
     }
     // globals stay usable: a clean simulation in the same process behaves as before
-    let follow = run(&Case { f: Where::None, cf: false, g: Where::None, cg: false }, false);
+    let follow = run(&CLEAN, false);
     if follow.aborted || !follow.errs.is_empty() || follow.log != clean {
         return Err(format!("a follow-up simulation in the same process no longer behaves like a fresh one (errors {:?}, {} log entries vs {})", follow.errs, follow.log.len(), clean.len()));
     }
     Ok(vcheck::fp(&(h1, real.errs)))
 }
+
+const CLEAN: Case = Case { f: Where::None, cf: false, g: Where::None, cg: false, h: Where::None, ch: false };
 
 impl Property for C13 {
     fn id(&self) -> &'static str {
@@ -251,8 +271,9 @@ impl Property for C13 {
         "fault_enumeration"
     }
     fn rule(&self, _tier: Tier) -> String {
+        // (the thorough tier adds the third faulty module)
         format!(
-            "4 modules (a -> b direct, f -> b and g -> b over latency channels, every module with periodic self messages and a timer task); fault = panic in {:?} of f and/or g (every single placement and every pair), each module with a catching or non-catching stereotype; \
+            "5 modules (a -> b and h -> b direct, f -> b and g -> b over latency channels, every module with periodic self messages and a timer task); fault = panic in {:?} of f and/or g (every single placement, every pair and every triple with h; thorough: three more message occurrences), each module with a catching or non-catching stereotype; \
              oracle: run() returns, the healthy modules' complete traces equal those of the real run in which the faulty module calls shutdown() at the same point, the faulty module is not activated after a callback panic, the error lists exactly the panicking non-catching modules, and a clean follow-up simulation in the same process reproduces the clean trace; \
              every placement is distinct; non-trivial = at least one fault",
             &PLACES[1..]
@@ -265,19 +286,35 @@ impl Property for C13 {
         ]
     }
     fn required_features(&self, _tier: Tier) -> Vec<&'static str> {
-        vec!["single_fault", "two_faulty_modules", "catching_stereotype", "fault_in_start_stage", "fault_in_teardown", "fault_in_joined_task", "fault_in_nth_message"]
+        vec!["single_fault", "two_faulty_modules", "three_faulty_modules", "catching_stereotype", "fault_in_start_stage", "fault_in_teardown", "fault_in_joined_task", "fault_in_nth_message"]
     }
     fn explore(&self, ctx: &mut Ctx) {
-        let clean = run(&Case { f: Where::None, cf: false, g: Where::None, cg: false }, false);
+        let clean = run(&CLEAN, false);
         if clean.aborted || !clean.errs.is_empty() {
             ctx.out.capped.push(format!("MACHINERY: clean baseline failed: {:?}", clean.errs));
             return;
         }
-        for f in PLACES {
-            for g in PLACES {
+        let places: Vec<Where> = if ctx.tier == Tier::Thorough {
+            let mut p = PLACES.to_vec();
+            p.extend([Where::Msg(4), Where::Msg(6), Where::Msg(7)]);
+            p
+        } else {
+            PLACES.to_vec()
+        };
+        let hs: Vec<(Where, bool)> = {
+            let mut v = vec![(Where::None, false)];
+            for w in &places[1..] {
+                v.push((*w, false));
+                v.push((*w, true));
+            }
+            v
+        };
+        for &f in &places {
+            for &g in &places {
                 for cf in [false, true] {
                     for cg in [false, true] {
-                        if f == Where::None && g == Where::None {
+                      for &(h, ch) in &hs {
+                        if f == Where::None && g == Where::None && h == Where::None {
                             continue;
                         }
                         if (f == Where::None && cf) || (g == Where::None && cg) {
@@ -286,22 +323,26 @@ impl Property for C13 {
                         if !ctx.mine() {
                             continue;
                         }
-                        let c = Case { f, cf, g, cg };
+                        let c = Case { f, cf, g, cg, h, ch };
                         ctx.begin(|| case_json(&c));
                         ctx.out.evaluations += 1;
                         ctx.out.traces += 3;
                         ctx.out.states += 1;
                         ctx.out.transitions += 3;
                         ctx.out.nontrivial += 1;
-                        if f == Where::None || g == Where::None {
+                        let nf = [f, g, h].iter().filter(|w| **w != Where::None).count();
+                        if nf == 1 {
                             ctx.hit("single_fault");
                         } else {
                             ctx.hit("two_faulty_modules");
                         }
-                        if cf || cg {
+                        if nf == 3 {
+                            ctx.hit("three_faulty_modules");
+                        }
+                        if cf || cg || ch {
                             ctx.hit("catching_stereotype");
                         }
-                        for w in [f, g] {
+                        for w in [f, g, h] {
                             match w {
                                 Where::Start(_) => ctx.hit("fault_in_start_stage"),
                                 Where::End => ctx.hit("fault_in_teardown"),
@@ -319,13 +360,14 @@ impl Property for C13 {
                             }
                             Err(d) => ctx.violation("violation", || case_json(&c), d),
                         }
+                      }
                     }
                 }
             }
         }
     }
     fn replay(&self, case: &Value) -> Result<(), String> {
-        let clean = run(&Case { f: Where::None, cf: false, g: Where::None, cg: false }, false);
+        let clean = run(&CLEAN, false);
         check(&case_from(case), &clean.log).map(|_| ())
     }
 }
